@@ -6,7 +6,7 @@ from .common import Exc
 from .oracle_env import env_for
 
 THEOREMS = ["C18_trie_membership", "C18_trie_host_only", "C18_regex_parsed_host_only", "C18_shortened_implies_should_resolve",
-            "C18_homepage_not_flagged", "C18_is_homepage_path_only", "C18_could_be_html_path_only", "C18_get_hostname_host_only", "C18_string_form_decided_by_prefix",
+            "C18_homepage_not_flagged", "C18_is_homepage_path_only", "C18_could_be_html_path_only", "C18_get_hostname_host_only", "C18_string_form_decided_by_prefix", "C18_parsed_form_membership",
             "(regex predicates: exact whole-label membership and agreement of the three input forms — harness decider, partial; independence of the string forms from path / query / fragment text: proved)"]
 REGEXES = ["FACEBOOK_URL_RE", "FACEBOOK_DOMAIN_RE", "TWITTER_URL_RE", "TWITTER_DOMAINS_RE", "INSTAGRAM_URL_RE", "INSTAGRAM_DOMAIN_RE",
            "TELEGRAM_URL_RE", "TELEGRAM_DOMAINS_RE", "DOMAIN_STARTS_L_RE", "PROTOCOL_RE", "SPECIAL_HOSTS_RE"]
